@@ -47,6 +47,7 @@ def one_property(prop):
                 res["demo"] = demo.name
                 d = sh(["/venv/bin/python", str(demo)], cwd=str(wt), env=env)
                 res["demo_fails"] = d.returncode != 0
+                moot = d.returncode == 0   # on the repaired tree the seeded change no longer breaks the property (demo passes with it)
                 # which check is expected to catch it (the seed's own property unless meta says another check does)
                 checks = [prop]
                 txt = " ".join(meta.get("confirmed_by_us", []))
@@ -64,6 +65,9 @@ def one_property(prop):
                     res["summary"] = line[-1] if line else c.stdout[-300:]
                 res["result"] = ("caught" if res.get("exit") == 1 and res.get("violation_line") else "MISSED") + \
                     (" (no failing input)" if res.get("nfi") else "")
+                if moot:
+                    res["result"] = ("moot on the repaired tree: demo.py passes WITH the patch (a later repair made the change "
+                                     "behaviour-preserving); check: " + res["result"])
         finally:
             sh(["git", "-C", "/repo", "worktree", "remove", "--force", str(wt)])
             try:
